@@ -1,6 +1,6 @@
 (* Proofs about the table of template globals (C17): every reference site
    designates the one global of its variable, whatever the order of emission. *)
-From Verif Require Import Bytes Facts_vars VarsM.
+From Verif Require Import Bytes Facts_vars VarsM VarsSpec.
 Open Scope N_scope.
 
 (* ---------- obligations on the generated facts ---------- *)
@@ -13,26 +13,6 @@ Lemma fact_pkgs :
 Proof. repeat split; reflexivity. Qed.
 
 Definition main_pkg : bytes := gen_globals_PackageName.
-
-(* ---------- programs ---------- *)
-
-Definition natives (ups : list upvar) : list var :=
-  flat_map (fun u => match u with UNative v => [v] | UOther => [] end) ups.
-
-Fixpoint item_sites (it : item) : list (N * var) :=
-  match it with
-  | IRef s v => [(s, v)]
-  | ILit _ body => flat_map item_sites body
-  end.
-
-Fixpoint item_vars (it : item) : list var :=
-  match it with
-  | IRef _ v => [v]
-  | ILit ups body => natives ups ++ flat_map item_vars body
-  end.
-
-Definition prog_sites (tops : list (list item)) : list (N * var) := flat_map (flat_map item_sites) tops.
-Definition prog_vars (tops : list (list item)) : list var := flat_map (flat_map item_vars) tops.
 
 (* induction principle for the nested type *)
 Section ItemInd.
@@ -216,6 +196,9 @@ Proof.
   - intros Hin. apply in_app_or in Hin. destruct Hin as [Hin|[<-|[]]]; [contradiction|]. apply H2. left. reflexivity.
   - apply IH; [assumption|]. intros Hin. apply H2. right. assumption.
 Qed.
+
+Lemma nth_error_map_local {A B} (f : A -> B) l k : nth_error (map f l) k = option_map f (nth_error l k).
+Proof. revert k. induction l as [|a l IH]; intros [|k]; cbn; auto. Qed.
 
 Lemma nth_error_app_l {A} (l m : list A) k x : nth_error l k = Some x -> nth_error (l ++ m) k = Some x.
 Proof.
